@@ -261,14 +261,16 @@ def r13_5(ctx):
     p = ctx.p
     fi = p.func("mbox.Mailbox.check_new_msgs_and_flags")
     ctx.analysed(fi)
-    txt = " ".join(norm(s, 5000) for s in fi.node.body)
+    from .common import pm_of
+
+    pm = pm_of(p, fi)
     checks = [
-        ("new_msg_keys = sorted(set(msg_keys) - set(self.msg_keys))" in txt, "new keys = folder keys minus known keys, ascending"),
-        ("self.msg_keys.extend(new_msg_keys)" in txt, "new keys are appended at the end"),
-        ("msg_seqs = self.get_sequences_from_folder()" in txt, "flags of new messages are taken from the folder's .mh_sequences"),
-        ("msg_sequences = {'Recent'}" in txt, "every new message gets \\Recent"),
-        ("if key in msg_seqs[seq]: msg_sequences.add(seq)" in txt, "each sequence the agent listed the key in is taken over"),
-        ("self.set_sequences_in_folder(self.sequences)" in txt, "the merged state is written back"),
+        (pm.has("new_msg_keys = sorted(set(msg_keys) - set(self.msg_keys))"), "new keys = folder keys minus known keys, ascending"),
+        (pm.has("self.msg_keys.extend(new_msg_keys)"), "new keys are appended at the end"),
+        (pm.has("msg_seqs = self.get_sequences_from_folder()"), "flags of new messages are taken from the folder's .mh_sequences"),
+        (pm.has("msg_sequences = {'Recent'}"), "every new message gets \\Recent"),
+        (pm.has("if key in msg_seqs[seq]:\n    msg_sequences.add(seq)"), "each sequence the agent listed the key in is taken over"),
+        (pm.has("self.set_sequences_in_folder(self.sequences)"), "the merged state is written back"),
     ]
     for okv, what in checks:
         if okv:
@@ -276,7 +278,8 @@ def r13_5(ctx):
         else:
             ctx.bad("R13.5", fi.module, fi.qual, what, f"reconcile lost: {what}", fi.node.lineno)
     # existing keys' flags are not touched by the merge loop: the loop iterates new_msg_keys only
-    loops = [n for n in body_walk(fi.node) if isinstance(n, ast.For) and norm(n.iter) == "new_msg_keys" and any("self.sequences[" in norm(b, 200) for b in n.body)]
+    nk = pm.name("new_msg_keys") or "new_msg_keys"
+    loops = [n for n in body_walk(fi.node) if isinstance(n, ast.For) and norm(n.iter) == nk and any("self.sequences[" in norm(b, 200) for b in n.body)]
     if loops:
         ctx.ok("R13.5", where(fi), "flag merge iterates over the new keys only (existing messages keep their flags)")
     else:
